@@ -105,3 +105,22 @@ def _v41(repo, mod):
     fn = repo.func(TFM, "MLTestFactory._mutated_ml_expr")
     s = find_stmt(fn, lambda s: isinstance(s, ast.AnnAssign) and norm(s.target) == "payload")
     return replace_node(mod, s.value, "elements if not info.is_tuple else tuple(elements)")
+
+
+@variant("C23", "int-literals-read-in-base-ten", "pynguin.testcase.literalgen", "C23.parse", "0xFF crashes the parser (the repaired defect)")
+def _v50(repo, mod):
+    from sa.selftest.harness import text_edit
+    return text_edit(mod, "        return int(expr.value, 0)\n", "        return int(expr.value)\n")
+
+
+@variant("C23", "empty-bare-tuple", "pynguin.testcase.literalgen", "C23.generate", "a tuple without parentheses is emptied without adding them (the repaired defect)")
+def _v51(repo, mod):
+    from sa.selftest.harness import text_edit
+    return text_edit(mod, "        lpar=expr.lpar or [cst.LeftParen()],\n        rpar=expr.rpar or [cst.RightParen()],\n", "")
+
+
+@variant("C23", "nan-write-refused", "pynguin.testcase.localsearchstatement", "C23.parse", "set_literal_value re-parses and compares with != (seed C23-e)")
+def _v52(repo, mod):
+    fn = repo.func("pynguin.testcase.localsearchstatement", "set_literal_value")
+    r = find_stmt(fn, lambda s: isinstance(s, ast.Return))
+    return replace_node(mod, r, "expr = literalgen.literal_to_cst(value)\n    if literalgen.parse_literal(expr, type(value)) != value:\n        return False\n    return _replace_rhs(test_case, position, expr)")
